@@ -53,7 +53,9 @@ def fixed_cases(tier):
 
 def gen_case(rng, tier, i):
     a = L.loguniform(rng, 1.0, 10.0)
-    spec, info = L.gen_axial(rng, semi=a, nsurf=(1, 8), asphere_p=0.15, glass_p=0.2, image='any',
+    multiwl = rng.random() < 0.3
+    spec, info = L.gen_axial(rng, semi=a, nsurf=(1, 8), asphere_p=0.15, glass_p=(0.6 if multiwl else 0.2), image='any',
+                             nwl=((3, 3) if multiwl else (1, 3)),
                              mirrors_p=(0.3 if rng.random() < 0.25 else 0.0), neg_power_p=0.2)
     classes = []
     if rng.random() < 0.35:
@@ -94,7 +96,7 @@ def gen_case(rng, tier, i):
         spec['polarization'] = dict(is_polarized=True, Ex=1.0, Ey=float(rng.uniform(0, 1)), phase_x=0.0,
                                     phase_y=float(rng.uniform(0, 6.28)))
         classes.append('polarized-state')
-    mode = 'trace' if rng.random() < 0.5 else 'generic'
+    mode = 'trace' if (rng.random() < 0.5 and not multiwl) else 'generic'
     dist = str(rng.choice(['hexapolar', 'uniform', 'random', 'cross', 'ring', 'line_y']))
     nr = int(rng.integers(3, 8)) if dist == 'hexapolar' else int(rng.integers(5, 25))
     n = 20
@@ -103,18 +105,23 @@ def gen_case(rng, tier, i):
     return dict(spec=spec, info=info, classes=sorted(set(classes)), mode=mode, dist=dist, nr=nr,
                 Hy=float(rng.choice([0.0, 1.0, rng.uniform(-1, 1)])), Px=(rr * np.cos(th)).tolist(),
                 Py=(rr * np.sin(th)).tolist(),
-                wl=float(spec['wavelengths'][int(rng.integers(len(spec['wavelengths'])))][0]))
+                wl=float(spec['wavelengths'][int(rng.integers(len(spec['wavelengths'])))][0]),
+                wls=([float(spec['wavelengths'][int(j)][0]) for j in rng.integers(len(spec['wavelengths']), size=n)]
+                     if multiwl else None))
 
 
 def medium_k(m, wl, lens_surface_post):
+    """Extinction coefficient at wl (scalar or per-ray array)."""
+    shape = np.shape(wl)
     if isinstance(m, dict) and 'n' in m:
-        return float(m.get('k', 0.0))
+        return np.full(shape, float(m.get('k', 0.0))) if shape else float(m.get('k', 0.0))
     if m in ('air',):
-        return 0.0
+        return np.zeros(shape) if shape else 0.0
     try:
-        return float(np.ravel(lens_surface_post.k(wl))[0])
+        out = [float(np.ravel(lens_surface_post.k(float(w)))[0]) for w in np.ravel(wl)]   # one scalar lookup per ray
+        return np.array(out) if shape else out[0]
     except ValueError:
-        return 0.0      # no extinction data: transparent
+        return np.zeros(shape) if shape else 0.0      # no extinction data: transparent
 
 
 def check_case(case, rec):
@@ -126,6 +133,9 @@ def check_case(case, rec):
     classes = case['classes']
     rec.cls(*(classes or ['no-loss-mechanism']), f"mode-{case['mode']}")
     wl = case['wl']
+    if case.get('wls'):
+        wl = np.array(case['wls'])      # one bundle carrying several wavelengths
+        rec.cls('multi-wavelength-bundle')
     polarized = spec.get('polarization', 'ignore') != 'ignore'
     try:
         if case['mode'] == 'trace':
@@ -166,7 +176,7 @@ def check_case(case, rec):
         with np.errstate(all='ignore'):
             att = np.exp(-4 * math.pi * kext[k - 1] * seg * 1e3 / wl)
         fac = np.where(v, att, np.nan)
-        if kext[k - 1] > 0:
+        if np.any(np.asarray(kext[k - 1]) > 0):
             acted = True
         if s.get('aperture'):
             fr = S.Frame(s.get('dx', 0.0), s.get('dy', 0.0), zs[k], s.get('rx', 0.0), s.get('ry', 0.0))
@@ -237,7 +247,7 @@ def check_case(case, rec):
         from optiland.wavefront import Wavefront
         Hy = case['Hy']
         fmax = max(f[0] for f in spec['fields'])
-        if fmax > 0 and all(np.isfinite(final_rec)):
+        if fmax > 0 and all(np.isfinite(final_rec)) and np.ndim(wl) == 0:
             wf = Wavefront(lens, fields=[(0.0, Hy)], wavelengths=[wl], num_rays=case['nr'], distribution=case['dist'])
             wi = np.asarray(wf.data[0][0][1], float)
             rec.check('analysis-reports-traced-intensity', np.array_equal(wi, final_rec),
